@@ -5,6 +5,7 @@ import JanetModel.Unmarsh.ImageWf
 import JanetModel.PegVerify.Sound
 import JanetModel.Unmarsh.BytesSound
 import JanetModel.Unmarsh.BytesMono
+import JanetModel.Unmarsh.NanBoxSound
 namespace JanetModel.Props.C10
 open JanetModel.Bytecode JanetModel.Gen.VmAccess
 
@@ -194,5 +195,38 @@ theorem witness_uncounted_env_recursion :
         (JanetModel.Unmarsh.Bytes.fuelBound BytesExamples.envUncounted) with | .err .stack => true | _ => false) = true ∧
     (match JanetModel.Unmarsh.Bytes.unmarshal (BytesExamples.mkInc BytesExamples.goodIncs) (BytesExamples.nestedImage 2)
         (JanetModel.Unmarsh.Bytes.fuelBound BytesExamples.envUncounted) with | .ok (.func _) c => c.pos == 35 | _ => false) = true := by decide +kernel
+
+/-! ### reals are re-boxed: a NaN payload cannot forge a pointer
+
+`real_is_number` / `real_never_a_pointer` over the constants of the CURRENT janet.h / wrap.c / marsh.c are
+`JanetModel.Unmarsh.NanBoxObligations.{nanbox_ok, real_is_number, real_never_a_pointer}` (built by the check on every run).
+Here: for ANY configuration with the 47-bit tag layout in which `case LB_REAL` re-boxes through `isnan(d) ? NAN : d` with a
+NAN whose type field is JANET_NUMBER, and for EVERY 64-bit payload. -/
+open JanetModel.Unmarsh.NanBox in
+theorem real_is_number_of_ok (N : NB) (hN : N.ok = true) (w : Nat) : janetType N (unmarshalReal N w) = N.numberTag :=
+  real_is_number N hN w
+
+open JanetModel.Unmarsh.NanBox in
+theorem real_never_a_pointer_of_ok (N : NB) (hN : N.ok = true) (w t : Nat) (ht : t < 16) (hne : t ≠ N.numberTag) :
+    checktype N (unmarshalReal N w) t = false := real_never_a_pointer N hN w t ht hne
+
+namespace NanExamples
+open JanetModel.Unmarsh.NanBox
+def good : NB := { tagShift := 47, typeMod := 16, lowtagOr := 131056, numberTag := 0, nanBits := 9221120237041090560, safe := true }
+/-- non-vacuity; 1.5 stays 1.5; a signalling NaN carrying a "string" tag and the payload 0x41414141 becomes the plain NAN -/
+example : good.ok = true := by decide
+example : unmarshalReal good 4609434218613702656 = 4609434218613702656 := by decide
+example : unmarshalReal good 18445055224944083265 = 9221120237041090560 := by decide
+end NanExamples
+
+/-- `case LB_REAL` wrapping with plain `janet_wrap_number` (no re-boxing): the payload `0xFFFA000041414141` IS a string whose
+    pointer is `0x41414141` — `NB.ok` is false and the forged value passes `janet_checktype(x, JANET_STRING)` -/
+theorem witness_unsafe_real_forges_pointer :
+    ({ NanExamples.good with safe := false } : JanetModel.Unmarsh.NanBox.NB).ok = false ∧
+    JanetModel.Unmarsh.NanBox.janetType { NanExamples.good with safe := false }
+      (JanetModel.Unmarsh.NanBox.unmarshalReal { NanExamples.good with safe := false } 18445055224944083265) = 4 ∧
+    JanetModel.Unmarsh.NanBox.checktype { NanExamples.good with safe := false }
+      (JanetModel.Unmarsh.NanBox.unmarshalReal { NanExamples.good with safe := false } 18445055224944083265) 4 = true ∧
+    JanetModel.Unmarsh.NanBox.toPointer NanExamples.good 18445055224944083265 = 1094795585 := by decide
 
 end JanetModel.Props.C10
